@@ -4,6 +4,7 @@
 package main
 
 import (
+	"bytes"
 	"crypto/ecdsa"
 	"crypto/elliptic"
 	"crypto/rand"
@@ -168,7 +169,8 @@ func newU2FToken(label string) *vU2FToken {
 	der, err := x509.CreateCertificate(rand.Reader, tmpl, tmpl, &ak.PublicKey, ak)
 	vMust(err)
 	h := sha256.Sum256([]byte("handle-" + label))
-	return &vU2FToken{key: k, handle: h[:], attKey: ak, attDER: der}
+	// a token that has been in use for a while: its signature counter is well above what the server stored at enrolment
+	return &vU2FToken{key: k, handle: h[:], attKey: ak, attDER: der, counter: 2000}
 }
 
 func vB64u(b []byte) string { return base64.RawURLEncoding.EncodeToString(b) }
@@ -220,10 +222,14 @@ func (t *vU2FToken) signResponse(challengeB64 string) u2f.SignResponse {
 
 func (t *vU2FToken) signResponseFor(challengeB64 string, handle []byte) u2f.SignResponse {
 	t.counter++
+	ctr := t.counter
+	if !bytes.Equal(handle, t.handle) {
+		ctr = 7 // a forger's token under somebody else's handle: whatever counter it likes, e.g. one BELOW the stored one
+	}
 	cd := t.clientData("navigator.id.getAssertion", challengeB64)
 	app := sha256.Sum256([]byte(u2fAppID))
 	ch := sha256.Sum256(cd)
-	raw := []byte{0x01, byte(t.counter >> 24), byte(t.counter >> 16), byte(t.counter >> 8), byte(t.counter)}
+	raw := []byte{0x01, byte(ctr >> 24), byte(ctr >> 16), byte(ctr >> 8), byte(ctr)}
 	tbs := append(append(append([]byte{}, app[:]...), raw...), ch[:]...)
 	sd := append(raw, vASN1Sig(t.key, tbs)...)
 	return u2f.SignResponse{KeyHandle: vB64u(handle), SignatureData: vB64u(sd), ClientData: vB64u(cd)}
